@@ -181,6 +181,9 @@ def generate(prop, rng, run, tier):
         if op["op"] in ("charts_append", "charts_insert"):
             nch += 1
     edit = gen.flatten_ops(edit)
+    if prop == "C05" and rng.random() < 0.03 and _composable_unencodable(det or ""):
+        # an edit the code page cannot hold as it stands (its NFC form could): the save fails
+        edit.append({"op": "set_key", "key": "SUBTITLE", "value": "x" + _composable_unencodable(det)})
     if rng.random() < 0.08:
         # somebody else rewrites the input file on disk while the block runs (a nested
         # mutate, another program): what was read at block entry is what counts
@@ -220,7 +223,8 @@ def generate(prop, rng, run, tier):
         cfg["explicit_defaults"] = rng.sample(["errors", "newline", "buffering"], rng.randint(1, 3))
     if prop == "C06" and text.isascii() and rng.random() < 0.5:
         # keyword arguments are passed to open(): a caller-chosen error handler
-        cfg["errors"] = rng.choice(["replace", "ignore", "strict", "backslashreplace"])
+        cfg["errors"] = rng.choice(["replace", "ignore", "strict", "backslashreplace", "surrogateescape",
+                                    "surrogatepass", "xmlcharrefreplace", "namereplace"])
     if prop == "C05":
         cfg["followup_noop"] = True
         if rng.random() < 0.35:
@@ -486,6 +490,33 @@ def _entry_matches(real_plain, data, enc, kind, strict, facade):
     return False
 
 
+def _undecodable_outcome_ok(sc, data, err, facade):
+    """Nothing in the tried list decodes the file.  The statement says UnicodeDecodeError is
+    raised *only* then; it does not say which error wins when the part of the file that does
+    decode is itself unloadable (a malformed chart, stray text under strict parsing) - an
+    implementation that parses while it reads meets that error first.  Accepted: a
+    UnicodeDecodeError, or the load error the reference gives for the file decoded leniently
+    under one of the tried encodings.  Never: success, or anything else."""
+    if isinstance(err, UnicodeDecodeError):
+        return True
+    if err is None:
+        return False
+    cfg = sc["config"]
+    for e in (cfg.get("try_encodings") or DEFAULT_ENCODINGS):
+        try:
+            text = data.decode(e, "replace")
+        except LookupError:
+            continue
+        if facade in NATIVE_LIKE:
+            text = universal_newlines(text)
+        for cut in (text, text[:text.find("\ufffd")] if "\ufffd" in text else text):
+            kind = models.ref_detect(cfg["input"], cut, bool(cfg.get("strict", True)))
+            m = kind if isinstance(kind, LoadError) else ref_load(cut, kind, bool(cfg.get("strict", True)))
+            if isinstance(m, LoadError) and m.exc == type(err).__name__:
+                return True
+    return False
+
+
 def _parse_file(data, enc, kind):
     try:
         text = data.decode(enc)
@@ -599,7 +630,7 @@ def check_c05(sc, res):
             res.stats["buggify:" + k] += v
     if enc is None:
         res.stats["probe:nothing-decodes"] += 1
-        if not isinstance(o.escaped, UnicodeDecodeError):
+        if not _undecodable_outcome_ok(sc, data, o.escaped, facade):
             res.violate(P, "undecodable-not-unicodedecodeerror", escaped=repr(o.escaped))
         elif _changed_paths(o.before, o.after):
             res.violate(P, "undecodable-changed-disk")
@@ -655,6 +686,11 @@ def check_c05(sc, res):
                     and isinstance(o.escaped, UnicodeEncodeError):
                 res.violate(P, "save-raised", kf_class="uppercased-key-outside-codepage",
                             enc=enc, key=bad[0][1], escaped=repr(o.escaped))
+        if why == "unencodable" and o.escaped is None:
+            # the block exited normally although the simfile at block exit cannot be written
+            # in the encoding it was read in: whatever was saved, it does not parse to that
+            # simfile (a failing save is C06's business, a "successful" one is this clause's)
+            res.violate(P, "unencodable-simfile-saved-normally", enc=enc)
         return
     if o.escaped is not None:
         res.violate(P, "save-raised", escaped=repr(o.escaped), enc=enc)
@@ -774,8 +810,10 @@ def _check_open(sc, res, data, enc, kind, expect):
             got, err = None, e
         res.evaluations += 1
         if enc is None:
-            if not isinstance(err, UnicodeDecodeError):
+            if not _undecodable_outcome_ok(sc, data, err, _tf(cfg)):
                 res.violate(P, "open-undecodable-not-unicodedecodeerror", escaped=repr(err))
+            elif not isinstance(err, UnicodeDecodeError):
+                res.stats["probe:undecodable-file-failed-with-its-load-error"] += 1
         elif isinstance(expect, LoadError):
             if err is None or type(err).__name__ != expect.exc:
                 res.violate(P, "open-load-error-mismatch", expected=expect.exc, escaped=repr(err))
@@ -809,7 +847,8 @@ def _check_open(sc, res, data, enc, kind, expect):
             if text is not None and (len(text) - len(text.rstrip("\\"))) % 2 == 1:
                 pass      # excluded: ends in an unpaired backslash under this encoding
             elif text is None:
-                if not isinstance(err, UnicodeDecodeError):
+                sce = dict(sc, config=dict(cfg, try_encodings=[ee]))
+                if not _undecodable_outcome_ok(sce, data, err, _tf(cfg)):
                     res.violate(P, "explicit-encoding-should-fail", encoding=ee, escaped=repr(err))
             else:
                 k2 = models.ref_detect(cfg["input"], text, True)
@@ -835,6 +874,20 @@ def _check_open(sc, res, data, enc, kind, expect):
 def _unencodable_char(enc):
     return {"utf-8": "\ud800", "ascii": "\u3042", "cp1252": "\u3042", "cp932": "\u00e9",
             "cp949": "\u00e9", "latin-1": "\u3042", "utf-16": "\ud800"}.get(enc, "\ud800")
+
+
+def _composable_unencodable(enc):
+    """Text the code page cannot hold as it stands although its NFC form could."""
+    return {"cp1252": "e\u0301", "latin-1": "e\u0301", "cp932": "\u304b\u3099",
+            "cp949": "\u1112\u1161\u11ab", "ascii": "e\u0301"}.get(enc)
+
+
+def _encodes_under(text, enc, errors):
+    try:
+        text.encode(enc, errors or "strict")
+        return True
+    except (UnicodeEncodeError, LookupError):
+        return False
 
 
 def check_c06(sc, res):
@@ -971,9 +1024,10 @@ def check_c06(sc, res):
         if o.escaped is None:
             if spoil["what"] == "unencodable" and gen.encodable(spoil["char"], enc):
                 return
-            if spoil["what"] == "unencodable" and cfg.get("errors") in ("replace", "ignore",
-                                                                        "backslashreplace"):
-                # the caller asked for lossy encoding: the save legitimately succeeds
+            if spoil["what"] == "unencodable" and cfg.get("errors") and \
+                    _encodes_under(spoil["char"].upper() + spoil["char"], enc, cfg["errors"]):
+                # the caller's error handler can write it (lossy or escaping): the save
+                # legitimately succeeds
                 res.stats["probe:lossy-errors-handler-saved"] += 1
                 return
             res.violate(P, "unsaveable-simfile-saved-silently", spoil=spoil)
@@ -1097,6 +1151,10 @@ def check_c06(sc, res):
         spoils.append({"what": "chart-without-notes"})
     for where in ("early", "late", "key", "extradata", "chart-field", "chart-notes"):
         spoils.append({"what": "unencodable", "char": _unencodable_char(enc), "where": where})
+    comp = _composable_unencodable(enc)
+    if comp:
+        for where in ("late", "chart-field"):
+            spoils.append({"what": "unencodable", "char": comp, "where": where})
     for sp in spoils:
         sub_spoil(sp)
         tag({"sub": "spoil", "spoil": sp})
